@@ -997,8 +997,8 @@ RULE_TEXT = ('the small accessors this property\'s rules read by name do what th
 DEPS = {'C01': ['Tree::children', 'Tree::is_leaf', 'Tree::num_children', 'Tree::parent', 'Tree::contains', 'Tree::get_root', 'AffFuncBase::indim', 'AffFuncBase::outdim', 'afftree_from_layers', 'afftree_from_layers_verbose', 'afftree_from_layers_csv', 'Tree::terminals', 'AffTree::terminals', 'NodeState::is_feasible', 'NodeState::is_infeasible', 'NodeState::is_indetermined'],
         'C02': ['Tree::children', 'Tree::is_leaf', 'Tree::get_root', '<AffFuncBase as Clone>::clone', 'AffFuncBase::indim', 'AffFuncBase::outdim', '<AffTree as Clone>::clone'],
         'C03': ['Tree::children', 'Tree::contains', 'Tree::num_children', 'Tree::parent', 'Tree::is_leaf', 'NodeState::is_feasible', 'NodeState::is_infeasible', 'NodeState::is_indetermined', 'AffTree::merge_child_with_parent'],
-        'C04': ['InputError::expect_dim', 'Tree::is_leaf', 'AffFuncBase::indim', 'AffFuncBase::outdim', 'AffFuncBase::n_constraints', 'TreeNode::new', 'Tree::with_root', 'AffTree::replace_node', 'Tree::terminals', 'AffTree::terminals', 'AffTree::merge_child_with_parent'],
-        'C05': ['Tree::parent', 'Tree::children', 'Tree::contains', 'Tree::node_value', 'AffContent::feasible_witnesses', 'NodeState::is_feasible', 'NodeState::is_infeasible', 'NodeState::is_indetermined'],
+        'C04': ['Tree::is_root', 'InputError::expect_dim', 'Tree::is_leaf', 'AffFuncBase::indim', 'AffFuncBase::outdim', 'AffFuncBase::n_constraints', 'TreeNode::new', 'Tree::with_root', 'AffTree::replace_node', 'Tree::terminals', 'AffTree::terminals', 'AffTree::merge_child_with_parent'],
+        'C05': ['Tree::is_root', 'Tree::parent', 'Tree::children', 'Tree::contains', 'Tree::node_value', 'AffContent::feasible_witnesses', 'NodeState::is_feasible', 'NodeState::is_infeasible', 'NodeState::is_indetermined'],
         'C06': ['Tree::contains', 'Tree::num_children', 'Tree::parent', 'Tree::children', 'NodeState::is_feasible', 'NodeState::is_infeasible', 'NodeState::is_indetermined', 'AffTree::merge_child_with_parent'],
         'C07': ['<AffFuncBase as Clone>::clone', 'Tree::children', 'Tree::is_leaf', '<TraversalIter as Iterator>::next', '<AffTree as Clone>::clone', '<Tree as Clone>::clone'],
         'C08': ['TreeNode::children_iter', 'tree::iter::TraversalMut::iter', '<TraversalIter as Iterator>::next', 'Tree::tree_node'],
